@@ -253,6 +253,77 @@ def make_xpath_harness(paths):
     return harness
 
 
+def make_reused_xpath_harness(paths):
+    """One ASTXpath OBJECT matched against the nodes of a tree, then again after the tree was
+    edited in place (legacy trees are mutable: replace_with hands the old node's id to its
+    replacement): every answer follows the node's CURRENT parent chain, and equals the answer of a
+    freshly constructed ASTXpath of the same text."""
+
+    def harness(e):
+        from pyoak.legacy.match.xpath import ASTXpath
+        from pyoak.origin import NO_ORIGIN
+
+        LZ.lreset()
+        pno = e.choice(len(paths), "xpath")
+        steps, relative = paths[pno]
+        text = XR.render(steps, relative)
+        tno = e.pick([0, 2, 3, 5, 7], "tree")
+        recipe = LTREES[tno]
+        root = LZ.lbuild(recipe)
+        xp = ASTXpath(text)
+        live = _live_positions(root)
+        first = [xp.match(n) for n, _ in live]
+        want1 = [XR.matches(steps, relative, ch, LZ.LCLASSES) for _, ch in live]
+        scenario = {"xpath": text, "tree": LZ.ldescribe(recipe)}
+        if first != want1:
+            e.fail("legacy-match-differs-from-reference", scenario=scenario)
+        # ---- edit in place
+        k = 1 + e.choice(len(live) - 1, "edited_position") if len(live) > 1 else None
+        if k is None:
+            e.assume(False)
+        target = live[k][0]
+        edit = e.pick(["replace_with-a-node-of-another-class-keeping-the-subtree", "replace_with-a-new-leaf", "replace_with-None", "replace-property"], "edit")
+        o = NO_ORIGIN
+        try:
+            if edit == "replace_with-a-node-of-another-class-keeping-the-subtree":
+                if isinstance(target, LZ.LTup):
+                    new = LZ.LList(elems=[], origin=o, create_detached=True)
+                    target.replace_with(new)
+                elif isinstance(target, LZ.LReq):
+                    new = LZ.LOpt(one=None, origin=o, create_detached=True)
+                    target.replace_with(new)
+                elif isinstance(target, LZ.LLeaf):
+                    new = LZ.LTup(items=(), origin=o, create_detached=True)
+                    target.replace_with(new)
+                else:
+                    new = LZ.LLeaf(v=77, origin=o, create_detached=True)
+                    target.replace_with(new)
+            elif edit == "replace_with-a-new-leaf":
+                target.replace_with(LZ.LSub(v=78, origin=o, create_detached=True))
+            elif edit == "replace_with-None":
+                target.replace_with(None)
+            else:
+                if not hasattr(target, "v"):
+                    e.assume(False)
+                target.replace(v=target.v + 1000)
+        except Exception:  # noqa: BLE001
+            e.assume(False)  # the edit is not admissible at this position (type / optionality)
+        live2 = _live_positions(root)
+        got = [xp.match(n) for n, _ in live2]
+        want = [XR.matches(steps, relative, ch, LZ.LCLASSES) for _, ch in live2]
+        fresh = [ASTXpath(text).match(n) for n, _ in live2]
+        scenario.update(edit=edit, edited_position=k, after_edit=got, reference=want, fresh_object=fresh)
+        multi = any(s[2] not in (None, "any") and len(s[2]) > 1 for s in steps)
+        if got != want or fresh != want:
+            e.fail(("index-multi-digit:" if multi else "") + ("reused-xpath-object-answers-for-the-tree-before-the-edit" if fresh == want else "legacy-match-differs-from-reference"), scenario=scenario)
+        e.distinct((pno, tno, k, edit))
+        if any(want):
+            e.count("nonempty_results")
+        return scenario
+
+    return harness
+
+
 def _live_positions(root):
     """(node, chain) of the tree as it is now, by walking the dataclass fields."""
     import dataclasses
@@ -379,6 +450,9 @@ def spec(tier: str, seed: int) -> Spec:
     paths = lpath_space(tier)
     pch = max(1, len(paths) // 48)
     fams += [Family(f"xpath[{k}:{k + pch}]", make_xpath_harness(paths[k : k + pch]), variables="selectors: xpath derivation, tree") for k in range(0, len(paths), pch)]
+    rp = paths[:: (23 if tier == "quick" else 7)]
+    rch = max(1, len(rp) // 16)
+    fams += [Family(f"xpath-object-reused-across-edits[{k}:{k + rch}]", make_reused_xpath_harness(rp[k : k + rch]), variables="selectors: xpath derivation, tree, edited position, kind of in-place edit") for k in range(0, len(rp), rch)]
     cs = LZ.all_lshapes(n, 3) + LTREES
     fams.append(Family("calculate_xpath", calc_xpath_harness_factory(cs), variables="selector: tree"))
     fams.append(Family("malformed", malformed_harness, variables="selector: malformed text from a pool"))
